@@ -319,7 +319,7 @@ func preflightErrorClassRule(c *Ctx) {
 			// not on a retry list" also covers InternalError, Gone, Expired and whatever a later API
 			// server adds
 			asStatus, definite := false, false
-			for _, f := range errFacts {
+			for _, f := range append(append([]Fact{}, errFacts...), rc.Facts...) {
 				if call, _ := asCall(f.Cond); call != nil {
 					switch id := calleeID(call.Common()); {
 					case id == "errors.As":
@@ -330,6 +330,11 @@ func preflightErrorClassRule(c *Ctx) {
 						definite = true
 					case strings.HasPrefix(id, pkgAPIErr+".Is"):
 						definite = true
+					default:
+						// a repository-local classifier that says yes only for enumerated reasons
+						if cl := staticCallee(call.Common()); cl != nil && f.Pol && strings.HasPrefix(funcPkgPath(cl), modPKO) && p.classifierEnumerates(cl) {
+							definite = true
+						}
 					}
 				}
 				if b, ok := f.Cond.(*ssa.BinOp); ok && b.Op == token.EQL && f.Pol {
@@ -1027,4 +1032,52 @@ const teardownUnderFinalizerStatement = "in the deletion/archival handlers Teard
 func init() {
 	addRule("C12", Rule{ID: "C12.R11", Min: 2, Statement: teardownUnderFinalizerStatement, Run: teardownUnderFinalizerRule})
 	addRule("C04", Rule{ID: "C04.R9", Min: 2, Statement: teardownUnderFinalizerStatement, Run: teardownUnderFinalizerRule})
+}
+
+// classifierEnumerates: every way the boolean classifier fn can return true is reached through a
+// positive comparison of a value with a constant (an allow-list such as `switch reason { case A, B:
+// return true }`), never through "everything that was not excluded".
+func (p *Program) classifierEnumerates(fn *ssa.Function) bool {
+	if fn == nil || len(fn.Blocks) == 0 {
+		return false
+	}
+	posEq := func(fs []Fact) bool {
+		for _, f := range fs {
+			if b, ok := f.Cond.(*ssa.BinOp); ok && b.Op == token.EQL && f.Pol {
+				for _, side := range []ssa.Value{b.X, b.Y} {
+					if _, isC := constString(side); isC {
+						return true
+					}
+				}
+			}
+		}
+		return false
+	}
+	sawTrue := false
+	for _, rc := range p.returnCases(fn) {
+		if len(rc.Results) != 1 {
+			return false
+		}
+		cb, isConst := constBool(rc.Results[0])
+		if !isConst {
+			return false
+		}
+		if !cb {
+			continue
+		}
+		sawTrue = true
+		if posEq(rc.Facts) {
+			continue
+		}
+		b := rc.Ret.Block()
+		if rc.Pred != nil || len(b.Preds) == 0 {
+			return false
+		}
+		for _, pr := range b.Preds {
+			if !posEq(p.FactsOnEdge(pr, b)) {
+				return false
+			}
+		}
+	}
+	return sawTrue
 }
